@@ -46,7 +46,7 @@ TECHNIQUE = 'exhaustive enumeration of path strings x settings + Hypothesis stri
 MARK = b'canary_marker_7f3a'
 AVOID_TAGS = ('prefix_sibling', 'carts_prefix', 'dotdot_pattern')
 SEGS = ['lib', 'sub', '.', '..', '', 'projx', 'ok', 'canary', '?', ';']
-SIB = {'own': 'projx', 'home': 'cartsX', 'homex': 'carts'}
+SIB = {'own': 'projx', 'home': 'cartsX', 'homex': 'carts', 'tilde': 'projx'}
 SIBLINGS = {'projx', 'proj-old', 'libsx', 'cartsX', 'cartsXy', 'Proj', 'PROJ', 'Libs', 'LIBS', 'Carts', 'CARTS', 'cartsx'}
 RSEGS = SEGS + ['proj', 'work', 'abs', 'libs', 'libsx', 'proj-old', 'init', 'mod', 'pkg', 'inc', 'main', '...',
                 'home', '.lexaloffle', 'pico-8', 'carts', 'cartsX', 'cartsXy', 'game', 'gamex', 'ok.lua',
@@ -76,6 +76,7 @@ FILES = [(p, True) for p in (
     'work/proj/lib/ok.p8.png', 'work/proj/lib/init.lua', 'work/proj/lib/lib/ok.lua', 'work/proj/sub/ok.lua',
     'work/proj/sub/inc.lua',
     'work/qu?ry/ok.lua', 'work/qu?ry/lib/ok.lua', 'work/qu?ry/init.lua',
+    'work/~/ok.lua', 'work/~/ok.p8', 'work/~/lib/ok.lua', 'work/~/sub/ok.lua',
     'abs/libs/mod.lua', 'abs/libs/ok.lua', 'abs/libs/init.lua', 'abs/libs/pkg/init.lua', 'abs/libs/lib/ok.lua',
     'abs/libs/lib/init.lua', 'abs/libs/ok/init.lua',
     HP + '/carts/ok.lua', HP + '/carts/shared.lua', HP + '/carts/canary.lua', HP + '/carts/canary.p8',
@@ -86,9 +87,11 @@ FILES = [(p, True) for p in (
 )]
 DIRS = ['build', 'work/proj/canary', 'abs/libs/canary', HP + '/carts/game/canary']
 
-INC_SETTINGS = ('own', 'home', 'homex')
-INC_BASE = {'own': 'work/proj', 'home': HP + '/carts/game', 'homex': HP + '/cartsX'}
-INC_ROOT = {'own': 'work/proj', 'home': HP + '/carts', 'homex': HP + '/cartsX'}
+INC_SETTINGS = ('own', 'home', 'homex', 'tilde')
+# (tilde: the cart lives in a directory literally named `~` below the working directory and is named `~/main.p8`:
+# the file that is opened is work/~/main.p8, so that directory is the include root - not $HOME)
+INC_BASE = {'own': 'work/proj', 'home': HP + '/carts/game', 'homex': HP + '/cartsX', 'tilde': 'work/~'}
+INC_ROOT = {'own': 'work/proj', 'home': HP + '/carts', 'homex': HP + '/cartsX', 'tilde': 'work/~'}
 
 ABS_LP = '{TMP}/abs/libs/?.lua;{TMP}/abs/libs/?/init.lua'
 # name -> (load path template or None, via, hop require string, hop file)
@@ -114,7 +117,7 @@ ENV_ALSO = {'abs_cli_env_other': '{TMP}/abs/libsx/?.lua;{TMP}/abs/libsx/?/init.l
 MAIN_LUA = {'qdir': 'work/qu?ry/main.lua', 'qdir_rel': 'work/qu?ry/main.lua'}
 REQ_ORDER = ('default', 'rel_cli', 'relpkg_cli', 'abs_cli', 'rel_env', 'abs_env', 'qdir', 'qdir_rel', 'abs_cli_env_other',
              'q_then_abs_text')
-MUTABLE = ['work/proj/main.p8', HP + '/carts/game/main.p8', HP + '/cartsX/main.p8', 'work/proj/main.lua', 'work/qu?ry/main.lua',
+MUTABLE = ['work/~/main.p8', 'work/proj/main.p8', HP + '/carts/game/main.p8', HP + '/cartsX/main.p8', 'work/proj/main.lua', 'work/qu?ry/main.lua',
            'build/out.p8']
 P8_HEAD = b'pico-8 cartridge // http://www.pico-8.com\nversion 8\n__lua__\n'
 
@@ -366,6 +369,9 @@ def _run_include(lay, case, S):
         name = os.path.relpath(cart)
     elif case.get('cwd') == 'top':
         os.chdir(lay.tmp)
+    if case['setting'] == 'tilde':
+        os.chdir(os.path.dirname(os.path.dirname(cart)))
+        name = '~/main.p8'
     try:
         with FsGuard() as guard:
             try:
@@ -415,6 +421,11 @@ def _run_require(lay, case, S):
         with open(main_lua, 'wb') as fh:
             fh.write(b'm0=1\n' + line)
     args = ['build', out, '--lua', main_lua]
+    cwd0 = os.getcwd()
+    if case.get('bare_main'):
+        # the main file named the way a user standing in the project directory names it: `--lua main.lua`
+        os.chdir(os.path.dirname(main_lua))
+        args = ['build', out, '--lua', os.path.basename(main_lua)]
     if via == 'cli':
         args += ['--lua-path', lay.sub(lp)]
     elif via == 'env':
@@ -422,11 +433,14 @@ def _run_require(lay, case, S):
     if case['setting'] in ENV_ALSO:
         lay.setenv('PICO8_LUA_PATH', lay.sub(ENV_ALSO[case['setting']]))
     err, rc = None, None
-    with FsGuard() as guard:
-        try:
-            rc = tool.main(args)
-        except (Exception, SystemExit) as e:
-            err = e
+    try:
+        with FsGuard() as guard:
+            try:
+                rc = tool.main(args)
+            except (Exception, SystemExit) as e:
+                err = e
+    finally:
+        os.chdir(cwd0)
     lay.setenv('PICO8_LUA_PATH', None)
     failed = err is not None or rc not in (0, None)
     result = b''
@@ -439,6 +453,10 @@ def _run_require(lay, case, S):
     labels = _judge(lay, case, guard, failed, err, result, roots, exact, must_fail_require(S),
                     'the README promises that a require() string containing "./" or "../" or starting with "/" is an error')
     labels += ['mode_require', 'setting_' + case['setting']]
+    if case.get('bare_main'):
+        labels.append('bare_relative_main_file_name')
+        if not failed and not must_fail_require(S):
+            labels.append('bare_relative_main_file_name_inside_ok')
     if case.get('form', 'paren') != 'paren':
         labels.append('require_string_call_form')
     if case['nested']:
@@ -581,6 +599,13 @@ def special_strings(lay, bases):
 def include_cases(lay, maxseg):
     for setting in INC_SETTINGS:
         base = lay.p(INC_BASE[setting])
+        if setting == 'tilde':
+            # (a reduced string space: this setting is about how the cart itself is named)
+            for S in enum_strings(2, SIB[setting]):
+                yield {'mode': 'include', 'setting': setting, 'S': S, 'ext': '.lua'}
+            for S in explicit_strings(lay, [base, lay.p(INC_ROOT[setting])], EXTS):
+                yield {'mode': 'include', 'setting': setting, 'S': S, 'ext': '.lua'}
+            continue
         for S in enum_strings(maxseg, SIB[setting]):
             for ext in EXTS[:2]:
                 yield {'mode': 'include', 'setting': setting, 'S': S, 'ext': ext}
@@ -622,8 +647,13 @@ def require_cases(lay, maxseg):
                 continue
             for S in enum_strings(maxseg):
                 yield dict(probe, S=S)
+            if setting in ('default', 'rel_cli', 'relpkg_cli') and not nested:
+                for S in enum_strings(2):
+                    yield dict(probe, S=S, bare_main=True)
             for S in explicit_strings(lay, roots, ['.lua', '/init.lua']):
                 yield dict(probe, S=S)
+                if setting in ('default', 'rel_cli', 'relpkg_cli') and not nested and not S.startswith('{TMP}'):
+                    yield dict(probe, S=S, bare_main=True)
                 if S.startswith('{TMP}'):
                     # the load path is a ';'-separated list: a require string carrying its own ';' must not be
                     # able to add entries to it
